@@ -61,7 +61,7 @@ class Replayer:
         return b.hex()
 
     def line(self, grammar, argv, env=None):
-        a = ",".join(self.enc(x) for x in argv) if argv else "-"
+        a = ",".join("x" + self.enc(x) for x in argv) if argv else "-"
         e = ";".join("%s=%s" % (k, self.enc(v)) for k, v in sorted((env or {}).items())) or "-"
         return "%s\t%s\t%s" % (grammar, a, e)
 
